@@ -113,7 +113,7 @@ def memExpand (v : VecSt) (additional : Nat) : Res (VecSt × List Event) :=
     match checkedAdd v.cap additional with
     | .ok requested =>
       match relocResize v (max (v.cap + v.cap / 2) requested) with
-      | .ok (v', ev) => .ok (v', .memExpand additional :: ev)
+      | .ok (v', ev) => .ok (v', ev ++ [.memExpand additional])
       | .panic m => .panic m
       | .ub m => .ub m
     | .panic m => .panic m
